@@ -110,6 +110,11 @@ def cases(draw, client):
         # a second wave of sends starts on the new link while the first wave is still parked
         wave2 = [("ok", draw(st.sampled_from(FAST + SINGLE)), 10 + j) for j in range(draw(st.integers(0, 2)))]
         fail = ("eof", draw(st.integers(1, 6)), draw(st.sampled_from([30, 60, 120])), wave2)
+    if not isinstance(fail, tuple) and n >= 2 and draw(st.integers(0, 5)) == 0:
+        # the application gives up on one of the sends (timeout wrapper, shutdown of one producer): its task is cancelled while the
+        # first message holds the link under back-pressure - a cancelled send() may have written nothing, a prefix or everything
+        fail = ("cancel", draw(st.integers(0, n - 1)), draw(st.integers(1, 12)))
+        pauses = [(1, 14)] + [p for p in pauses if p[0] != 1]
     return msgs, pauses, fail, stagger
 
 
@@ -126,6 +131,9 @@ def expected_packets(client, m, counter):
 def run_case(client, msgs, pauses, fail, stagger):
     s = aio.Session(client)
     built = [make_message(*m) for m in msgs]
+    if isinstance(fail, int) and (fail + len(msgs)) % 2:
+        # the application's status handler takes its time (0.3 virtual s) - e.g. while the client tells it about the lost link
+        s.status_mode = "slow"
 
     async def main(s):
         c = s.make_client()
@@ -138,7 +146,9 @@ def run_case(client, msgs, pauses, fail, stagger):
         s.state_before = c.state.name
         for i, j in pauses:
             s.gw.write_actions.setdefault(s.base_writes + i, ("pause", j))
-        if isinstance(fail, (tuple, list)):
+        if isinstance(fail, (tuple, list)) and fail[0] == "cancel":
+            pass
+        elif isinstance(fail, (tuple, list)):
             s.gw.write_actions[s.base_writes + fail[1]] = ("pause_eof", fail[2])
         elif fail is not None:
             s.gw.write_actions[s.base_writes + fail] = ("fail",)
@@ -147,7 +157,9 @@ def run_case(client, msgs, pauses, fail, stagger):
             for _ in range(lag):
                 await asyncio.sleep(0)
             tasks.append(asyncio.ensure_future(c.send(m)))
-        if isinstance(fail, (tuple, list)) and len(fail) > 3 and fail[3]:
+        if isinstance(fail, (tuple, list)) and fail[0] == "cancel":
+            s.at_step(s.loop.steps + fail[2], lambda: tasks[fail[1]].cancel())
+        if isinstance(fail, (tuple, list)) and fail[0] != "cancel" and len(fail) > 3 and fail[3]:
             for _ in range(400):
                 if len(s.gw.links) > 1 and c.state.name == "CONNECTED":
                     break
@@ -164,6 +176,15 @@ def run_case(client, msgs, pauses, fail, stagger):
         await asyncio.sleep(3.0)
         s.final_state = c.state.name
         s.status_names = [x for _, x in s.status_trace]
+        s.after = None
+        if isinstance(fail, int) and client != "actisense" and s.gw.links and s.gw.links[0].dead and c.state.name == "CONNECTED":
+            # after the failed write and the reconnection: one more message - it goes out on the (one) new link, complete
+            s.links_before_after = len(s.gw.links)
+            extra = make_message("ok", SINGLE[0], 200)[0]
+            n0 = len(s.gw.link.bytes_written())
+            await c.send(extra)
+            await asyncio.sleep(1.0)
+            s.after = (extra, s.gw.link.bytes_written()[n0:], c.state.name, len(s.gw.links))
         await c.close()
     outcome = s.run(main)
     return outcome, s, built
@@ -200,6 +221,29 @@ def evaluate(client, msgs, pauses, fail, stagger, outcome, s, built):
                 break
             seen.add(x)
             prev_src = x
+    if isinstance(fail, (tuple, list)) and fail[0] == "cancel":
+        # nothing failed on the link: the connection stays as it was, and every message that was NOT cancelled is on the link completely
+        if s.state_after_sends != "CONNECTED" or s.attempts_after_sends != s.attempts_before or "DISCONNECTED" in s.status_names or len(s.gw.links) > 1:
+            out.append((f"{tag}|connection-disturbed|cancelled-send", f"a waiting send() was cancelled, no write failed, but state {s.state_before} -> {s.state_after_sends}, "
+                        f"attempts {s.attempts_before} -> {s.attempts_after_sends}, status trace {s.status_names}", case))
+        data = link0.bytes_written()[s.base_bytes:]
+        if client == "ebyte":
+            srcs = [data[i + 4] for i in range(0, len(data) - 12, 13)]
+        elif client == "waveshare":
+            srcs = [data[i + 5] for i in range(0, len(data) - 19, 20) if data[i + 2] == 0x01]
+        elif client == "yd":
+            srcs = [int(line.split()[0], 16) & 0xFF for line in data.decode("ascii", "ignore").split("\r\n") if line.strip()]
+        else:
+            srcs = []
+        if client != "actisense":
+            for i, ((k, key, src_), (m, ok)) in enumerate(zip(msgs, built)):
+                if not ok or i == fail[1] or not isinstance(getattr(m, "source", None), int):
+                    continue
+                want = len(expected_packets(client, m, 0)[0])
+                if srcs.count(m.source) != want:
+                    out.append((f"{tag}|cancelled-send-harms-another", f"send() number {fail[1]} was cancelled; message {i} (source {m.source}) has {srcs.count(m.source)} of its "
+                                f"{want} packets on the link", case))
+        return out
     if isinstance(fail, (tuple, list)):
         if len(s.gw.links) > 1 and "DISCONNECTED" not in s.status_names:
             out.append((f"{tag}|eof-not-reported", "the gateway closed its side during a send but DISCONNECTED was never reported", case))
@@ -255,6 +299,14 @@ def evaluate(client, msgs, pauses, fail, stagger, outcome, s, built):
             kinds = sorted({m[0] for m in msgs})
             out.append((f"{tag}|connection-disturbed|{'+'.join(k for k in kinds if k != 'ok') or 'ok'}", f"no write failed but state {s.state_before} -> {s.state_after_sends}, attempts "
                         f"{s.attempts_before} -> {s.attempts_after_sends}, status trace {s.status_names}", case))
+    if fail_hit and getattr(s, "after", None) is not None:
+        extra, got_bytes, state_after, links_after = s.after
+        want = b"".join(expected_packets(client, extra, 0)[0])
+        if s.links_before_after != 2:
+            out.append((f"{tag}|write-failure-reconnects-twice", f"one failing write, but {s.links_before_after} connections were opened (status trace {s.status_names})", case))
+        if got_bytes != want or state_after != "CONNECTED" or links_after != s.links_before_after:
+            out.append((f"{tag}|message-after-recovery-lost", f"a message sent after the reconnection: {len(got_bytes)} of {len(want)} bytes on the current link, state "
+                        f"{state_after}, {links_after} connections", case))
     if fail_hit:
         if "DISCONNECTED" not in s.status_names:
             out.append((f"{tag}|write-failure-not-reported", f"write {fail} failed but DISCONNECTED was never reported (status {s.status_names})", case))
@@ -273,7 +325,9 @@ def _work(ctx: Ctx, item):
         multi = sum(1 for (k, key, _), (_, ok) in zip(msgs, built) if ok and key in FAST)
         bad = any(not ok for _, ok in built)
         n_pauses_hit = sum(1 for i, _ in pauses if i <= s.gw.total_writes - getattr(s, "base_writes", 0))
-        if isinstance(fail, tuple):
+        if isinstance(fail, tuple) and fail[0] == "cancel":
+            ctx.klass("send_cancelled")
+        elif isinstance(fail, tuple):
             ctx.klass("eof_during_send")
         if (multi >= 2 and n_pauses_hit) or bad or (fail is not None and s.gw.links and s.gw.links[0].dead) or client == "actisense":
             ctx.nt((client, repr(msgs), repr(pauses), fail, repr(stagger)))
